@@ -14,7 +14,11 @@ Definition close_result (tol : Q) (model expected : result Q) : bool :=
 Inductive c14case :=
 | CAgg (num_bits : nat) (d : dist) (op : list term) (len : nat) (alpha tol : Q) (exp_operator exp_bitstring : result Q)
 | CRaw (l : list entry) (alpha tol : Q) (expected : result Q)
-| CAlpha (alpha : Q) (accepted : bool).  (* the alpha range check of the circuit evaluators' constructors *)
+| CAlpha (alpha : Q) (accepted : bool)
+(* bitstring path alone, the key width taken from the distribution itself (None: integer keys, padded to the largest) *)
+| CBits (key_width : option nat) (d : dist) (op : list term) (len : nat) (alpha tol : Q) (exp_bitstring : result Q)
+(* which variant of the accumulation break an implementation agrees with (replay only) *)
+| CRawGen (atol_break : bool) (l : list entry) (alpha tol : Q) (expected : result Q).  (* the alpha range check of the circuit evaluators' constructors *)
 
 Definition check_case (c : c14case) : bool :=
   match c with
@@ -23,6 +27,8 @@ Definition check_case (c : c14case) : bool :=
       && close_result tol (expectation_with_bitstring nb d len op alpha) eb
   | CRaw l alpha tol e => close_result tol (get_expectation l alpha) e
   | CAlpha alpha a => Bool.eqb (alpha_ok alpha) a
+  | CBits kw d op len alpha tol eb => close_result tol (expectation_with_bitstring (dist_num_bits kw d) d len op alpha) eb
+  | CRawGen ab l alpha tol e => close_result tol (get_expectation_gen ab l alpha) e
   end.
 
 Definition show_case (c : c14case) : list (result Q) :=
@@ -32,4 +38,6 @@ Definition show_case (c : c14case) : list (result Q) :=
        Ok (cvar (map (fun sp => (snd sp, eval_diag op (fst sp))) d) alpha)]
   | CRaw l alpha _ _ => [get_expectation l alpha; Ok (cvar l alpha)]
   | CAlpha alpha _ => [if alpha_ok alpha then Ok alpha else Err "ValueError"]
+  | CBits kw d op len alpha _ _ => [expectation_with_bitstring (dist_num_bits kw d) d len op alpha]
+  | CRawGen ab l alpha _ _ => [get_expectation_gen ab l alpha; Ok (cvar l alpha)]
   end.
